@@ -47,6 +47,7 @@ func main() {
 		fatal("missing -out")
 	}
 	must(os.MkdirAll(*out, 0o755))
+	repoRoot = strings.TrimRight(*repo, "/")
 	overlay := map[string]string{}
 	rep := &report{}
 
@@ -200,9 +201,11 @@ func addImport(f *ast.File, p string) {
 	f.Imports = append(f.Imports, spec)
 }
 
+var repoRoot string
+
 func rel(p string) string {
-	if i := strings.Index(p, "/repo/"); i >= 0 {
-		return p[i+6:]
+	if repoRoot != "" && strings.HasPrefix(p, repoRoot+"/") {
+		return p[len(repoRoot)+1:]
 	}
 	return p
 }
